@@ -447,3 +447,42 @@ func init() {
 		Stubs:   stubsCommon,
 	})
 }
+
+func init() {
+	register(&CheckDef{
+		ID:    "C13",
+		Title: "Sync policy is honoured: acknowledged means flushed when the options say so",
+		Reach: []string{"done", "explicit-sync", "closed", "sync-batch", "rotated-checked", "threshold-some-unsynced"},
+		Jobs: func(tier string) []JobSpec {
+			var js []JobSpec
+			add := func(name string, params map[string]int64) {
+				js = append(js, JobSpec{Name: name, Harness: "root", Func: "verifHarnessC13", Params: params, Scale: scaleDF(32), NoReplay: true})
+			}
+			base := p("pool", 2, "klen", 1, "vlens", 2, "index", 3, "shards", 1, "dfs_lo", 60, "dfs_hi", 120)
+			k := 2
+			if tier == "thorough" {
+				k = 3
+			}
+			add("always-std", merge(base, p("k", k, "ops", opPut|opDelete|opSync|opRestart, "sync", syncAlways)))
+			add("threshold-std", merge(base, p("k", k+1, "ops", opPut|opDelete, "sync", syncThreshold, "vlens", 3, "vbig", 25)))
+			add("nosync-std-batch", merge(base, p("k", k, "ops", opPut|opSync|opBatch|opRestart, "sync", syncNo, "bsync", 1, "vlens", 1)))
+			add("always-mmap", merge(base, p("k", k, "ops", opPut|opDelete|opSync|opRestart, "sync", syncAlways, "io", 1)))
+			add("threshold-mmap", merge(base, p("k", k, "ops", opPut|opDelete|opRestart, "sync", syncThreshold, "io", 1)))
+			if tier == "thorough" {
+				add("always-std-batch", merge(base, p("k", 3, "ops", opPut|opDelete|opBatch, "sync", syncAlways, "bsync", 1, "vlens", 1)))
+				add("threshold-std-restart", merge(base, p("k", 4, "ops", opPut|opDelete|opSync|opRestart, "sync", syncThreshold, "vlens", 1)))
+			}
+			js = append(js, JobSpec{Name: "witness", Harness: "root", Func: "verifHarnessC13", Params: merge(base, p("k", 1, "ops", opPut, "witness", 1)), Scale: scaleDF(32), Witness: true})
+			return js
+		},
+		Assumptions: []string{"what fsync/msync do in the kernel is trusted; observed is whether they were ISSUED before the call returned (FS model: per-file unsynced byte ranges tagged with the public call that wrote them)",
+			"mmap: bytes changed through the mapping since the last msync are found by comparing the mapping with a shadow taken at msync time (a zero byte written over a zero byte is not counted); mmap jobs use no batches",
+			"violations of this property are NOT replayed natively (fsync is invisible through the API); the replay directory holds the concrete operation sequence and the FS op log instead"},
+		Bounds: map[string]string{
+			"quick":    "K=2-3 calls over {Put,Delete,Sync,Close+Open,Sync batch<=2}, SyncStrategy Always/Threshold(BytesPerSync symbolic in [1,200])/No, DataFileSize symbolic in [60,120] (rotations), std and mmap; policy checked at every return",
+			"thorough": "K=3-4",
+		},
+		Outside: "kernel behaviour of fsync/msync; sequences longer than K; the inductive counter step for unbounded histories (not built)",
+		Stubs:   stubsCommon,
+	})
+}
